@@ -171,8 +171,12 @@ def viz_shared_producer_in_container(case, msg, observed=None):
         if me is None or me["kind"] == "graph":
             return False
         mine = set(me.get("outputs", []))
-        if not any(n is not me and mine & set(n.get("outputs", [])) for n in lv["nodes"] if n["kind"] != "graph"):
-            return False                      # no other producer of one of its output names at that level
+        def outs(n):
+            if n["kind"] != "graph":
+                return set(n.get("outputs", []))
+            return set().union(*[outs(m) for m in n["graph"]["nodes"]]) if n["graph"]["nodes"] else set()
+        if not any(n is not me and mine & outs(n) for n in lv["nodes"]):
+            return False                      # no other producer (a sibling node, or one inside a sibling graph) of one of its output names
     return True
 
 
@@ -197,7 +201,9 @@ def mermaid_id_clash(case, msg, observed=None):
     clashing = {x for v in spelled.values() if len(v) > 1 for x in v}
     if not clashing:
         return False
-    return all(p.get("code") == 1 or p.get("code") == 5 or p.get("a") in clashing or p.get("b") in clashing for p in probs)
+    def touches(x):
+        return bool(x) and any(x == c or x.startswith(c + "/") for c in clashing)
+    return all(p.get("code") == 1 or p.get("code") == 5 or touches(p.get("a")) or touches(p.get("b")) for p in probs)
 
 
 MATCHERS = {f.__name__: f for f in (mermaid_id_clash, viz_shared_producer_in_container, nested_interrupt_resume, equal_but_distinct_default, stop_iteration_async, waiter_with_edge_default, ambiguous_cycle_entry, empty_map_silent, viz_renamed_boundary, interrupt_handler_wrapped, interrupt_with_edge_default, bound_output_name)}
